@@ -69,7 +69,7 @@ variable {K : Type} [Add K] [Mul K] [LE K] [DecidableLE K] [Neg K] [OfNat K 0]
 def sumSq (v : List K) : K := v.foldl (fun s x => s + x * x) 0
 
 /-- `v.normRMS() ≤ tol`  ⇔  Σ xᵢ² ≤ n·tol²  (no square root needed); `nK` = `n` as a scalar -/
-def acceptRMS (tol nK : K) (v : List K) : Bool := v.isEmpty || decide (sumSq v ≤ nK * nK * (tol * tol))
+def acceptRMS (tol nK : K) (v : List K) : Bool := v.isEmpty || decide (sumSq v ≤ nK * (tol * tol))
 
 /-- `v.normInf() ≤ tol` -/
 def acceptInf (tol : K) (v : List K) : Bool := v.all (fun x => decide (x ≤ tol) && decide (-x ≤ tol))
